@@ -2,7 +2,6 @@ import TF.Gen.PolyLoops
 import TF.Model.Poly
 import TF.Model.PolyMul
 import TF.Model.PolyDiv
-import TF.Model.PolyVal
 import Mathlib.Data.List.Basic
 import Mathlib.Data.List.Induction
 /-!
@@ -207,6 +206,214 @@ theorem new_eq (c : List α) : TF.Gen.Poly.new c = c := rfl
 theorem zero_eq : (TF.Gen.Poly.zero : List α) = zero := rfl
 theorem one_eq : TF.Gen.Poly.one F = one F := rfl
 theorem from_constant_eq (c : α) : TF.Gen.Poly.from_constant c = fromConstant c := rfl
-theorem into_owned_eq (p : List α) : TF.Gen.Poly.into_owned p = intoOwned p := rfl
+theorem into_owned_eq (p : List α) : TF.Gen.Poly.into_owned p = p := rfl
+
+/-! ### ring operations that copy raw storage -/
+
+theorem scalar_mul_eq (mul : α → σ → γ) (p : List α) (s : σ) :
+    TF.Gen.Poly.scalar_mul F mul p s = scalarMulG mul p s := rfl
+
+theorem scalar_mul_mut_eq (mul : α → σ → α) (p : List α) (s : σ) :
+    TF.Gen.Poly.scalar_mul_mut F mul p s = scalarMulG mul p s := rfl
+
+theorem neg_eq (p : List α) : TF.Gen.Poly.neg F p = neg F p := rfl
+
+theorem shift_coefficients_eq (p : List α) (n : Nat) :
+    TF.Gen.Poly.shift_coefficients F p n = shiftCoefficients F p n := rfl
+
+theorem scale_for_eq (oneS : σ) (mulS : σ → σ → σ) (mul : α → σ → γ) (alpha : σ) (l : List α) :
+    ∀ (acc : List γ) (pw : σ),
+      (TF.Gen.Poly.scale_for F oneS mulS mul alpha l acc pw).1 = acc ++ scaleAux mulS mul alpha pw l := by
+  induction l with
+  | nil => intro acc pw; simp [TF.Gen.Poly.scale_for, scaleAux]
+  | cons c l ih => intro acc pw; simp [TF.Gen.Poly.scale_for, scaleAux, ih]
+
+/-- regenerated `scale` (the `push` loop with the running power) = hand model, any scalar type -/
+theorem scale_eq (oneS : σ) (mulS : σ → σ → σ) (mul : α → σ → γ) (p : List α) (alpha : σ) :
+    TF.Gen.Poly.scale F oneS mulS mul p alpha = scaleG oneS mulS mul p alpha := by
+  have := scale_for_eq F oneS mulS mul alpha p [] oneS
+  simpa [TF.Gen.Poly.scale, TF.Gen.Poly.new, scaleG] using this
+
+theorem zipLongestMap_eq (f : α → α → α) (g : α → α) (a b : List α) :
+    zipLongestMap f (fun c => c) g a b = zipLongestWith f g a b := by
+  induction a generalizing b with
+  | nil => cases b <;> simp [zipLongestMap, zipLongestWith]
+  | cons x a ih => cases b <;> simp [zipLongestMap, zipLongestWith, ih]
+
+/-- regenerated `Add::add` / `Sub::sub` (`zip_longest` + `match`) = hand models -/
+theorem add_eq (a b : List α) : TF.Gen.Poly.add F a b = add F a b := by
+  simp only [TF.Gen.Poly.add, TF.Gen.Poly.new, add]
+  exact zipLongestMap_eq F.add (fun c => c) a b
+
+theorem sub_eq (a b : List α) : TF.Gen.Poly.sub F a b = sub F a b := by
+  simp only [TF.Gen.Poly.sub, TF.Gen.Poly.new, sub]
+  exact zipLongestMap_eq F.sub _ a b
+
+theorem zipMutWith_eq (f : α → α → α) (a b : List α) :
+    zipMutWith f a b = List.zipWith f a b ++ a.drop b.length := by
+  induction a generalizing b with
+  | nil => simp [zipMutWith]
+  | cons x a ih => cases b <;> simp [zipMutWith, ih]
+
+/-- regenerated `AddAssign::add_assign` = hand model (the slice `rhs[self_len..]` is in range) -/
+theorem add_assign_eq (a b : List α) :
+    TF.Gen.Poly.add_assign F a b = some (List.zipWith F.add a b ++ a.drop b.length ++ b.drop a.length) := by
+  simp only [TF.Gen.Poly.add_assign, zipMutWith_eq, sliceFrom?]
+  by_cases h : b.length > a.length
+  · have h' : a.length ≤ b.length := by omega
+    simp [h, h']
+  · have : List.drop a.length b = [] := List.drop_eq_nil_of_le (by omega)
+    simp [h, this]
+
+/-! ### evaluation, derivative, reversal, truncation -/
+
+theorem evaluate_for_eq {ι ε : Type} (zeroE : ε) (mulX : ε → ι → ε) (addC : ε → α → ε) (x : ι) (l : List α) :
+    ∀ acc, TF.Gen.Poly.evaluate_for F zeroE mulX addC x l acc = l.foldl (fun acc c => addC (mulX acc x) c) acc := by
+  induction l with
+  | nil => intro acc; rfl
+  | cons c l ih => intro acc; simp [TF.Gen.Poly.evaluate_for, ih]
+
+/-- regenerated `evaluate` (Horner loop over `iter().rev()`) = hand model, any indeterminate / result type -/
+theorem evaluate_eq {ι ε : Type} (zeroE : ε) (mulX : ε → ι → ε) (addC : ε → α → ε) (p : List α) (x : ι) :
+    TF.Gen.Poly.evaluate F zeroE mulX addC p x = evaluateG zeroE mulX addC p x := by
+  simp [TF.Gen.Poly.evaluate, evaluate_for_eq, evaluateG, List.foldl_reverse]
+
+theorem enumFrom_map_eq (n : Nat) (l : List α) :
+    (enumFrom n l).map (fun (i, c) => F.mul (F.ofNat i) c) = formalDerivativeAux F n l := by
+  induction l generalizing n with
+  | nil => rfl
+  | cons c l ih => simp [enumFrom, formalDerivativeAux, ih]
+
+/-- regenerated `formal_derivative` (`(0..).zip(..).map(..).skip(1)`) = hand model -/
+theorem formal_derivative_eq (p : List α) : TF.Gen.Poly.formal_derivative F p = formalDerivative F p := by
+  simp only [TF.Gen.Poly.formal_derivative, TF.Gen.Poly.new, formalDerivative, enumerate]
+  rw [enumFrom_map_eq]
+
+/-- regenerated `reverse` (`take(degree + 1)` of the raw storage, reversed) = hand model -/
+theorem reverse_eq (p : List α) : TF.Gen.Poly.reverse F p = some (reverse F p) := by
+  obtain ⟨n, hn, hp, hd⟩ := normalize_prefix F p
+  have : ((n : Int) - 1 + 1) = (n : Int) := by omega
+  simp [TF.Gen.Poly.reverse, degree_eq, hd, this, toUsize?, TF.Gen.Poly.new, reverse, hp]
+
+/-- regenerated `truncate` (`coefficients().rev().take(k.saturating_add(1)).rev()`): it reads the NORMALISED coefficients and
+    saturates `k + 1` in `usize`, every `k` (the hand models `truncateUsize` of `TF/Model/PolyApi.lean` / `PolyApiD.lean`) -/
+theorem truncate_eq (p : List α) (k : Nat) :
+    TF.Gen.Poly.truncate F p k =
+      some (((normalize F p).reverse.take (min (k + 1) 18446744073709551615)).reverse) := by
+  simp only [TF.Gen.Poly.truncate, coefficients_eq, Option.bind_some, coefficients, TF.Gen.Poly.new]
+
+/-- regenerated `mod_x_to_the_n` (the slice `[..min(n, len)]` is in range) = hand model -/
+theorem mod_x_to_the_n_eq (p : List α) (n : Nat) : TF.Gen.Poly.mod_x_to_the_n F p n = some (p.take n) := by
+  simp only [TF.Gen.Poly.mod_x_to_the_n, sliceTo?, TF.Gen.Poly.new]
+  have h : Nat.min n p.length ≤ p.length := Nat.min_le_right _ _
+  simp only [h, if_true, Option.bind_some, Option.some.injEq]
+  by_cases hn : n ≤ p.length
+  · rw [show Nat.min n p.length = n from Nat.min_eq_left hn]
+  · rw [show Nat.min n p.length = p.length from Nat.min_eq_right (by omega), List.take_of_length_le (Nat.le_refl _),
+      List.take_of_length_le (by omega)]
+
+/-! ### wrappers and dispatchers -/
+
+theorem mul_eq_naive (F2 : FieldOps β) (F3 : FieldOps γ) (mul : α → β → γ) (a : List α) (b : List β) :
+    TF.Gen.Poly.mul F F2 F3 mul a b = TF.Gen.Poly.naive_multiply F F2 F3 mul a b := by
+  simp [TF.Gen.Poly.mul]
+
+theorem divide_eq_naive (a d : List α) : TF.Gen.Poly.divide F a d = TF.Gen.Poly.naive_divide F a d := by
+  simp [TF.Gen.Poly.divide]
+
+theorem div_eq_naive (a d : List α) : TF.Gen.Poly.div F a d = (TF.Gen.Poly.naive_divide F a d).map (·.1) := by
+  simp only [TF.Gen.Poly.div]
+  cases TF.Gen.Poly.naive_divide F a d <;> rfl
+
+theorem rem_eq_naive (a d : List α) : TF.Gen.Poly.rem F a d = (TF.Gen.Poly.naive_divide F a d).map (·.2) := by
+  simp only [TF.Gen.Poly.rem]
+  cases TF.Gen.Poly.naive_divide F a d <;> rfl
+
+theorem reduce_long_division_eq_naive (a d : List α) :
+    TF.Gen.Poly.reduce_long_division F a d = (TF.Gen.Poly.naive_divide F a d).map (·.2) := by
+  simp only [TF.Gen.Poly.reduce_long_division, divide_eq_naive]
+  cases TF.Gen.Poly.naive_divide F a d <;> rfl
+
+/-- regenerated dispatcher `multiply`: the `isize` comparison of the degree sum against the regenerated threshold -/
+theorem multiply_dispatch (F2 : FieldOps β) (F3 : FieldOps γ) (mul : α → β → γ)
+    (fm : List α → List β → Option (List γ)) (a : List α) (b : List β) :
+    TF.Gen.Poly.multiply F F2 F3 mul fm a b =
+      if degree F a + degree F2 b < (TF.Gen.FAST_MULTIPLY_CUTOFF_THRESHOLD : Int)
+      then TF.Gen.Poly.naive_multiply F F2 F3 mul a b else fm a b := by
+  simp only [TF.Gen.Poly.multiply, degree_eq, Option.bind_some, Int.ofNat_eq_natCast, decide_eq_true_eq]
+  split
+  · cases TF.Gen.Poly.naive_multiply F F2 F3 mul a b <;> rfl
+  · cases fm a b <;> rfl
+
+/-- regenerated dispatcher `reduce`: the four-way dispatch on the degrees (`FAST_REDUCE_MAKES_SENSE_MULTIPLE = 4`) -/
+theorem reduce_dispatch (fr : List α → List α → Option (List α)) (a m : List α) :
+    TF.Gen.Poly.reduce F fr a m =
+      if degree F m < 0 then none
+      else if degree F m = 0 then some []
+      else if degree F a < degree F m then some a
+      else if degree F a > 4 * degree F m then fr a m
+      else (TF.Gen.Poly.naive_divide F a m).map (·.2) := by
+  simp only [TF.Gen.Poly.reduce, degree_eq, Option.bind_some, reduce_long_division_eq_naive, TF.Gen.Poly.zero,
+    TF.Gen.Poly.new, TF.Gen.Poly.into_owned, beq_iff_eq, decide_eq_true_eq]
+  split
+  · rfl
+  · split
+    · rfl
+    · split
+      · rfl
+      · split
+        · cases fr a m <;> rfl
+        · cases (TF.Gen.Poly.naive_divide F a m) <;> rfl
+
+theorem square_for2_eq (fs : List α → Option (List α)) (two : α) (c : List α) (i : Nat) (ci : α) (l : List Nat) :
+    ∀ sq, TF.Gen.Poly.square_for2 F fs two c i ci l sq = TF.Gen.Poly.slow_square_for2 F two c i ci l sq := by
+  induction l with
+  | nil => intro sq; rfl
+  | cons j l ih => intro sq; simp only [TF.Gen.Poly.square_for2, TF.Gen.Poly.slow_square_for2, ih]
+
+theorem square_for_eq (fs : List α → Option (List α)) (two : α) (c : List α) (l : List Nat) :
+    ∀ sq, TF.Gen.Poly.square_for F fs two c l sq = TF.Gen.Poly.slow_square_for F two c l sq := by
+  induction l with
+  | nil => intro sq; rfl
+  | cons j l ih => intro sq; simp only [TF.Gen.Poly.square_for, TF.Gen.Poly.slow_square_for, ih, square_for2_eq]
+
+/-- regenerated dispatcher `square`: zero first, `fast_square` when `2·deg + 1 > 64`, else the same double loop as
+    `slow_square` -/
+theorem square_dispatch (fs : List α → Option (List α)) (p : List α) :
+    TF.Gen.Poly.square F fs p =
+      if degree F p = -1 then some []
+      else if 2 * (degree F p).toNat + 1 > 64 then fs p else TF.Gen.Poly.slow_square F p := by
+  obtain ⟨n, hn, hp, hd⟩ := normalize_prefix F p
+  simp only [TF.Gen.Poly.square, TF.Gen.Poly.slow_square, degree_eq, Option.bind_some, beq_iff_eq, TF.Gen.Poly.zero,
+    TF.Gen.Poly.new, hd, square_for_eq]
+  cases n with
+  | zero => simp
+  | succ n =>
+    have h1 : ((n + 1 : Nat) : Int) - 1 = (n : Int) := by omega
+    have h2 : ¬ ((n : Int) = -1) := by omega
+    simp only [h1, h2, if_false, toUsize?, Int.natCast_nonneg, if_true, Int.toNat_natCast, Option.bind_some,
+      decide_eq_true_eq, Nat.mul_comm n 2]
+    split
+    · cases fs p <;> rfl
+    · rfl
+
+/-- regenerated `fast_multiply` on top of the transforms `ntt`/`intt` (parameters) = hand model -/
+theorem fast_multiply_eq (F2 : FieldOps β) (F3 : FieldOps γ) (mul : α → β → γ)
+    (T1 : Transform α) (T2 : Transform β) (T3 : Transform γ) (a : List α) (b : List β) :
+    TF.Gen.Poly.fast_multiply F F2 F3 mul T1.ntt T2.ntt T3.intt a b = fastMultiplyG F F2 mul T1 T2 T3 a b := by
+  simp only [TF.Gen.Poly.fast_multiply, degree_eq, Option.bind_some, fastMultiplyG, TF.Gen.Poly.zero, TF.Gen.Poly.new,
+    toUsize?]
+  by_cases h : 0 ≤ degree F a + degree F2 b
+  · have h' : ¬ (degree F a + degree F2 b < 0) := by omega
+    simp only [h, h', if_true, if_false]
+    have hz : ∀ (l : List α) (r : List β), (List.zip l r).map (fun (l, r) => mul l r) = List.zipWith mul l r := by
+      intro l r
+      induction l generalizing r with
+      | nil => simp
+      | cons x l ih => cases r <;> simp [ih]
+    simp only [hz]
+    rfl
+  · have h' : degree F a + degree F2 b < 0 := by omega
+    simp [h, h']
 
 end TF.GenBridge.Poly
